@@ -14,4 +14,10 @@ check("C07", "exhaustive enumeration of a boundary operand lattice against a mat
       "All ordered pairs (triples for pow) of a boundary lattice around 0, 2^7..2^192, floor(2^31.5), IntMax/IntMin with +-3 neighbours x every integer operator, shift, power, unary form and text conversion, executed through the Go API with operands in machine-word and forced arbitrary-precision representation and as compiled source text, compared value-for-value with math/big. Exhaustive over the lattice.",
       "math/big is trusted; operands outside the lattice are not covered (the property's 'seeded random operands' are replaced by a larger exhaustive lattice)",
       "DESIGN.md section 4 C07")
-ENGINES[0]["serves_properties"] = sorted(CHECKS.keys())
+check("C09", "stateless model checking of the real context under a controlled scheduler (iterative preemption bounding), monitor over the event trace",
+      "Every multiset of 2-4 goroutine programs over {RunCode, ModuleInit, ResolveAndCompile, Close, wait-for-Done} is run on the real stdlib.context under a cooperative scheduler whose scheduling points are generated from the current source (every lifecycle statement, every sync operation, inside the running Python code); ALL schedules within the preemption bound (quick: 2; thorough: up to 4) are executed and a monitor checks: no panic, no deadlock, Close returns only after admitted executions finished and callbacks ran once, Done not early, no admission after callbacks, requests after Close fail with an ordinary error.",
+      "sequentially consistent interleavings only; memory-model effects are seen only by the auxiliary free-running -race pass of the same bodies (a sampler, reported separately as non-deciding); the vsync shim models sync.Mutex/WaitGroup/Once",
+      "DESIGN.md section 4 C09", engine="explorer")
+ENGINES.append({"name": "explorer", "path": "explore + vsync + verifrt + cmd/instr", "serves_properties": ["C09"],
+  "kind_free_text": "choice-sequence DFS explorer with a cooperative goroutine scheduler (preemption/deviation bounded, optional visited-state pruning); sync shim; build-overlay instrumenter deriving yield points and controlled map-iteration order from the current sources"})
+ENGINES[0]["serves_properties"] = sorted(k for k in CHECKS.keys() if CHECKS[k]["engine"] == "enumerator")
